@@ -94,7 +94,7 @@ def h1_shapes(maxsz, tier):
                         add("x1" + name, lay, l0, [c], term, None, 0)
         # two chunks
         if thor:
-            l2, cs = l0s, allc
+            l2, cs = (l0s if name in ("A", "D", "E") else sorted(set([0, 1, s1 // 2, s1 - 1]))), allc
         else:
             l2 = sorted(set([0, s1 // 2, s1 - 1])) if name in ("A", "B") else []
             cs = few
@@ -104,7 +104,7 @@ def h1_shapes(maxsz, tier):
                     add("c2" + name, lay, l0, [c1, c2], WB, None, 0)
         # three chunks
         c3 = [1, maxsz] if not thor else some
-        for l0 in ([0, s1 - 1] if name in ("A", "D") or thor else []):
+        for l0 in ([0, s1 - 1] if name in ("A", "D") or (thor and name == "E") else []):
             for cc in itertools.product(c3, repeat=3):
                 add("c3" + name, lay, l0, list(cc), WB if sum(cc) % 3 else EOF, None, 0)
     return out
@@ -320,7 +320,7 @@ def main():
               "unwind": 26, "timeout": 300, "mem_gb": 8, "object_bits": 12, "functions": ["dispatch", "closeSocket", "KSI_FTLV_memRead", "KSI_OctetString_new"],
               "instances": q, "thorough": {"instances": th, "timeout": 900},
               "bound": "KSI_TLV_MAX_SIZE=12 (inBuf 24 bytes; thorough also 8 and 16): stream layouts A-E of TLV8/TLV16 elements of 2..MAX bytes; every initial fill 0..size(first element)-1; "
-                       "one chunk of every size 1..MAX; pairs/triples of chunk sizes from a subset (thorough: all pairs); endings would-block / peer close / hard error / no POLLIN; 0 or 1 response already queued; "
+                       "one chunk of every size 1..MAX; pairs/triples of chunk sizes from a subset (thorough: all 144 pairs at every fill for layouts A, D, E and at 4 fills for B, C); endings would-block / peer close / hard error / no POLLIN; 0 or 1 response already queued; "
                        "'conc' instances = same shapes with concrete pseudo-random bytes; quick %d shapes, thorough %d shapes; byte values, errno, options symbolic" % (nshapes(q), nshapes(th))})
     # ---- H-2
     q = group_instances("", h2_shapes("quick"), h2_fmt, ["KSI_TLV_MAX_SIZE=12"])
